@@ -1,5 +1,6 @@
 use crate::Ctx;
 pub mod c01;
+pub mod c03;
 pub mod c07;
 pub mod req;
 pub mod c14;
@@ -9,6 +10,7 @@ pub mod c20;
 pub fn run(ctx: &mut Ctx, suite: &str) {
     match suite {
         "c01" => c01::run(ctx),
+        "c03" => c03::run(ctx),
         "c07" => c07::run(ctx),
         "c14" => c14::run(ctx),
         "c16" => c16::run(ctx),
